@@ -77,7 +77,7 @@ pub struct Al32(pub [u8; 32]);
 
 impl Elem {
     pub const ALL: [Elem; 6] = [Elem::U8, Elem::U32, Elem::U64, Elem::A32, Elem::B3, Elem::Q9];
-    pub const SLICEABLE: [Elem; 4] = [Elem::U8, Elem::U32, Elem::U64, Elem::A32];
+    pub const SLICEABLE: [Elem; 5] = [Elem::U8, Elem::U32, Elem::U64, Elem::A32, Elem::B3];
     pub fn layout(self) -> Layout {
         match self {
             Elem::U8 => Layout::new::<u8>(),
@@ -331,6 +331,20 @@ where
                 d.try_allocate_slice::<T>(len).map(|p| p.as_ptr() as usize).map_err(|_| ())
             }
             2 => Ok(self.allocate_slice::<T>(len).as_ptr() as usize),
+            3 => {
+                // `try_allocate_slice_for(&[T])`: a real (zeroed) slice of `len` elements as the template
+                let l = Layout::array::<T>(len).map_err(|_| ())?;
+                if l.size() == 0 || l.size() > 1 << 22 {
+                    return self.try_allocate_slice::<T>(len).map(|p| p.as_ptr() as usize).map_err(|_| ());
+                }
+                unsafe {
+                    let mem = std::alloc::alloc_zeroed(l);
+                    let template = std::slice::from_raw_parts(mem as *const T, len);
+                    let r = self.try_allocate_slice_for::<T>(template).map(|p| p.as_ptr() as usize).map_err(|_| ());
+                    std::alloc::dealloc(mem, l);
+                    r
+                }
+            }
             _ => self.try_allocate_slice::<T>(len).map(|p| p.as_ptr() as usize).map_err(|_| ()),
         })
     }
